@@ -364,8 +364,14 @@ pub fn lock_for_update(path: &Path, file_description: &str) -> Option<UpdateLock
         })
         .map_err(LockError::Io)
         .and_then(|file| {
+            #[cfg(feature = "verif-hooks")]
+            crate::verif_hooks::point("upd:before_lock");
             try_lock_exclusive_with_timeout(&file, DEFAULT_LOCK_TIMEOUT_MS).map(|()| file)
         });
+    #[cfg(feature = "verif-hooks")]
+    if acquired.is_ok() {
+        crate::verif_hooks::point("upd:after_lock");
+    }
 
     match acquired {
         Ok(file) => Some(UpdateLockGuard { file }),
